@@ -219,7 +219,17 @@ func ParseFunction(parameterList, body string) (*ast.FunctionLiteral, error) {
 		return nil, err
 	}
 
-	return program.Body[0].(*ast.ExpressionStatement).Expression.(*ast.FunctionLiteral), nil
+	// The text may close the wrapper early ("}) + (function(){"): then the program is not the
+	// single function literal that was asked for.
+	if len(program.Body) == 1 {
+		if statement, ok := program.Body[0].(*ast.ExpressionStatement); ok {
+			if function, ok := statement.Expression.(*ast.FunctionLiteral); ok {
+				return function, nil
+			}
+		}
+	}
+	p.error(file.Idx(0), "Unexpected token )")
+	return nil, p.errors.Err()
 }
 
 // Scan reads a single token from the source at the current offset, increments the offset and
